@@ -66,3 +66,36 @@ def run(props=None, runs=None, names=None):
         finally:
             shutil.rmtree(tmp, ignore_errors=True)
     return ok
+
+
+def run_seeded(names=None, runs=None):
+    """The independently written changes under seeded/<name>/: patch applied to a scratch copy of
+    the source tree (never to /repo), quick check of the property named in meta.json via VERIF_SRC."""
+    import json
+    import subprocess
+
+    root = os.path.join(os.path.dirname(os.path.dirname(os.path.abspath(__file__))), "seeded")
+    ok = True
+    for name in sorted(os.listdir(root)):
+        if names and name not in names:
+            continue
+        d = os.path.join(root, name)
+        if not os.path.exists(os.path.join(d, "patch.diff")):
+            continue
+        meta = json.load(open(os.path.join(d, "meta.json")))
+        prop = meta.get("property") or name.split("_")[-1]
+        tmp = tempfile.mkdtemp(prefix="verif-seeded-")
+        try:
+            shutil.copytree(os.environ.get("VERIF_BASE_SRC") or "/repo/src", os.path.join(tmp, "src"))
+            p = subprocess.run(["git", "apply", "-p1", os.path.join(d, "patch.diff")], cwd=tmp, capture_output=True, text=True)
+            if p.returncode != 0:
+                print("seeded %-12s PATCH-FAILED %s" % (name, p.stderr.strip()[:200]))
+                ok = False
+                continue
+            code, summary = orch.run_check(prop, "quick", SPECS[prop], runs=runs, quiet=True, write_evidence=False, env_extra={"VERIF_SRC": os.path.join(tmp, "src")}, replay_dir=os.path.join(tmp, "replays"))
+            keys = [k for k, _, _, _ in summary["violations"]]
+            print("seeded %-12s %s %s runs=%d wall=%.1fs classes=%s%s" % (name, prop, "CAUGHT" if code == 1 else "MISSED", summary["evaluations"], summary["wall_s"], keys[:4], "" if not summary["harness_problems"] else " harness=%r" % summary["harness_problems"][:1]))
+            ok = ok and code == 1
+        finally:
+            shutil.rmtree(tmp, ignore_errors=True)
+    return ok
